@@ -18,12 +18,15 @@ def sample():
     b.attrib["w"] = 1
     m.connect(1, 2)
     m.attrib["note"] = "x"
+    m.attrib["results"] = [1, 2]                 # a nested mutable value: a DEEP copy must not share it
+    m.atoms[0].attrib["shifts"] = [0.5]
     return m
 
 
 def view(o):
-    v = {"name": o.name, "charge": o.charge, "mult": o.mult, "attrib": dict(o.attrib),
-         "atoms": [(int(a.element), a.label, a.formal_charge, dict(a.attrib)) for a in o.atoms]}
+    import copy as _c
+    v = {"name": o.name, "charge": o.charge, "mult": o.mult, "attrib": _c.deepcopy(dict(o.attrib)),
+         "atoms": [(int(a.element), a.label, a.formal_charge, _c.deepcopy(dict(a.attrib))) for a in o.atoms]}
     if hasattr(o, "bonds"):
         v["bonds"] = [(o.atoms.index(b.a1), o.atoms.index(b.a2), int(b.btype), dict(b.attrib)) for b in o.bonds]
     if hasattr(o, "coords"):
@@ -62,6 +65,11 @@ def check(route, src, cp):
         cp.atoms[0].label = "changed"
         if hasattr(cp, "bonds") and cp.bonds:
             cp.bonds[0].attrib["mut"] = 1
+            cp.bonds[-1].attrib["mut"] = 1           # this bond had an empty attribute dictionary
+        cp.atoms[-1].attrib["mut2"] = 1
+        if route.startswith(("deepcopy", "pickle")):
+            cp.attrib["results"].append(99)
+            cp.atoms[0].attrib["shifts"].append(99)
         cp.attrib["mut"] = 1
         if hasattr(cp, "coords"):
             cp.coords[...] = 99.0
@@ -101,6 +109,11 @@ check("concatenate (first source)", a, ml.Molecule(ml.Structure.concatenate(a, b
 sa, sb = ml.Structure(a), ml.Structure(b)
 va, vb = view(sa), view(sb)
 c = ml.Structure.concatenate(sa, sb)
+try:
+    if any(x.parent is not c for x in c.atoms) or any(x.parent is not c for x in c.bonds) or [x.idx for x in c.atoms] != list(range(c.n_atoms)):
+        bad.append("concatenate: atoms/bonds of the product do not belong to it (parent/idx)")
+except BaseException as ex:
+    bad.append(f"concatenate: parent/idx on the product raised {type(ex).__name__}")
 for nm, s_, v_ in (("first", sa, va), ("second", sb, vb)):
     try:
         if any(x.parent is not s_ for x in s_.atoms) or [x.idx for x in s_.atoms] != list(range(s_.n_atoms)) or any(x.parent is not s_ for x in s_.bonds):
